@@ -1,49 +1,77 @@
-(* C19 -- gama-g3 reproduces consistent global networks: property theorems only. *)
+(* C19 -- gama-g3 reproduces consistent global networks, independent of algorithm: property theorems only.
+   Proofs are in G3Proofs.v (real analysis) and LsqSpec.v (linear algebra, shared with C01/C02/C06);
+   G3Run.v is the executable transliteration the correspondence check evaluates. *)
 From Coq Require Import Reals Lra.
+From Coquelicot Require Import Coquelicot.
+From Gama Require Import LinProofs G3Proofs.
 Local Open Scope R_scope.
 
-(* local north-east-up frame at latitude b, longitude l: rows of the rotation from ECEF *)
-Definition north b l := (- sin b * cos l, - sin b * sin l, cos b).
-Definition east (b l : R) := (- sin l, cos l, 0).
-Definition up b l := (cos b * cos l, cos b * sin l, sin b).
-Definition dot3 (u v : R * R * R) : R :=
-  let '(a, b, c) := u in let '(x, y, z) := v in a * x + b * y + c * z.
-
-(* the frame is orthonormal everywhere on the ellipsoid (poles and antimeridian included) *)
+(* the local north-east-up frame is orthonormal everywhere on the ellipsoid (poles and antimeridian included) *)
 Theorem C19_neu_frame_is_orthonormal b l :
-  dot3 (north b l) (north b l) = 1 /\ dot3 (east b l) (east b l) = 1 /\ dot3 (up b l) (up b l) = 1 /\
-  dot3 (north b l) (east b l) = 0 /\ dot3 (north b l) (up b l) = 0 /\ dot3 (east b l) (up b l) = 0.
-Proof.
-  unfold dot3, north, east, up.
-  pose proof (sin2_cos2 b) as Hb. pose proof (sin2_cos2 l) as Hl. unfold Rsqr in Hb, Hl.
-  set (sb := sin b) in *. set (cb := cos b) in *. set (sl := sin l) in *. set (cl := cos l) in *.
-  repeat split.
-  - replace (- sb * cl * (- sb * cl) + - sb * sl * (- sb * sl) + cb * cb) with (sb * sb * (sl * sl + cl * cl) + cb * cb) by ring. rewrite Hl. lra.
-  - replace (- sl * - sl + cl * cl + 0 * 0) with (sl * sl + cl * cl) by ring. exact Hl.
-  - replace (cb * cl * (cb * cl) + cb * sl * (cb * sl) + sb * sb) with (cb * cb * (sl * sl + cl * cl) + sb * sb) by ring. rewrite Hl. lra.
-  - ring.
-  - ring_simplify. replace (- sb * cl ^ 2 * cb - sb * cb * sl ^ 2 + sb * cb) with (sb * cb * (1 - (sl * sl + cl * cl))) by ring. rewrite Hl. ring.
-  - ring.
-Qed.
+  dot (north b l) (north b l) = 1 /\ dot (east b l) (east b l) = 1 /\ dot (up b l) (up b l) = 1 /\
+  dot (north b l) (east b l) = 0 /\ dot (north b l) (up b l) = 0 /\ dot (east b l) (up b l) = 0.
+Proof. exact (neu_frame_is_orthonormal b l). Qed.
 Print Assumptions C19_neu_frame_is_orthonormal.
 
-(* hence corrections (dn, de, du) and (dx, dy, dz) have the same length: a consistent vector observation between two
-   points has the same misclosure in either frame, in particular zero *)
+(* hence corrections (dn, de, du) and (dx, dy, dz) have the same length: a consistent vector has the same
+   misclosure in either frame, in particular zero *)
 Theorem C19_rotation_preserves_length b l (x y z : R) :
   let v := (x, y, z) in
-  (dot3 (north b l) v) ^ 2 + (dot3 (east b l) v) ^ 2 + (dot3 (up b l) v) ^ 2 = x ^ 2 + y ^ 2 + z ^ 2.
+  (dot (north b l) v) ^ 2 + (dot (east b l) v) ^ 2 + (dot (up b l) v) ^ 2 = x ^ 2 + y ^ 2 + z ^ 2.
+Proof. exact (rotation_preserves_length b l x y z). Qed.
+Print Assumptions C19_rotation_preserves_length.
+
+(* coefficients of the zenith angle (target; the station has the opposite signs) *)
+Theorem C19_zenith_partials n e u : (n <> 0 \/ e <> 0) ->
+  is_derive (fun t => g3zen t e u) n (n * u * (1 / (hor n e * (n ^ 2 + e ^ 2 + u ^ 2)))) /\
+  is_derive (fun t => g3zen n t u) e (e * u * (1 / (hor n e * (n ^ 2 + e ^ 2 + u ^ 2)))) /\
+  is_derive (fun t => g3zen n e t) u (- (hor n e / (n ^ 2 + e ^ 2 + u ^ 2))).
+Proof. intro H. exact (conj (g3_zenith_dn n e u H) (conj (g3_zenith_de n e u H) (g3_zenith_du n e u H))). Qed.
+Print Assumptions C19_zenith_partials.
+
+(* the coefficients without the factor u (the code before the repair) are not the partial derivatives *)
+Theorem C19_zenith_old_coefficient_refuted :
+  exists n e u, (n <> 0 \/ e <> 0) /\
+    ~ is_derive (fun t => g3zen t e u) n (n * (1 / (hor n e * (n ^ 2 + e ^ 2 + u ^ 2)))).
+Proof. exact g3_zenith_old_coefficient_refuted. Qed.
+Print Assumptions C19_zenith_old_coefficient_refuted.
+
+(* horizontal directions and angles *)
+Theorem C19_direction_coefficients s d n e : 0 < d -> n = d * cos s -> e = d * sin s ->
+  - (sin s / d) = - e / (n ^ 2 + e ^ 2) /\ cos s / d = n / (n ^ 2 + e ^ 2).
+Proof. exact (g3_direction_coefficients s d n e). Qed.
+Print Assumptions C19_direction_coefficients.
+
+Theorem C19_angle_left_target_sign (fl : R -> R) (sr x dfl : R) :
+  is_derive fl x dfl -> is_derive (fun t => sr - fl t) x (- dfl).
+Proof. exact (g3_angle_left_target_sign fl sr x dfl). Qed.
+Print Assumptions C19_angle_left_target_sign.
+
+Theorem C19_reflex_angle_recovered (t : R) : 0 <= t < 2 * PI ->
+  (if Rlt_dec (sin t) 0 then 2 * PI - acos (cos t) else acos (cos t)) = t.
+Proof. exact (g3_reflex_angle_recovered t). Qed.
+Print Assumptions C19_reflex_angle_recovered.
+
+Theorem C19_angle_triple_product b l al ar :
+  let VL := cross (up b l) (horiz b l al) in let VR := cross (up b l) (horiz b l ar) in
+  dot VL VR = cos (ar - al) /\ dot (cross VL VR) (up b l) = - sin (ar - al).
+Proof. exact (g3_angle_triple_product b l al ar). Qed.
+Print Assumptions C19_angle_triple_product.
+
+(* approximate coordinates through a vector with antenna heights *)
+Theorem C19_vector_init_without_heights_refuted :
+  exists (f t w d hf ht : R), d = (t + w * ht) - (f + w * hf) /\ f + d <> t.
+Proof. exact g3_vector_init_without_heights_refuted. Qed.
+Print Assumptions C19_vector_init_without_heights_refuted.
+
+(* non-vacuity: the premises of the partials hold on a concrete line of sight *)
+Example C19_zenith_premise_holds : (3 <> 0 \/ 4 <> 0) /\ hor 3 4 = 5.
 Proof.
-  cbv zeta. unfold dot3, north, east, up.
-  pose proof (sin2_cos2 b) as Hb. pose proof (sin2_cos2 l) as Hl. unfold Rsqr in Hb, Hl.
-  set (sb := sin b) in *. set (cb := cos b) in *. set (sl := sin l) in *. set (cl := cos l) in *.
-  replace ((- sb * cl * x + - sb * sl * y + cb * z) ^ 2 + (- sl * x + cl * y + 0 * z) ^ 2 + (cb * cl * x + cb * sl * y + sb * z) ^ 2)
-    with ((sb * sb + cb * cb) * ((cl * x + sl * y) ^ 2 + z ^ 2) + (- sl * x + cl * y) ^ 2) by ring.
-  rewrite Hb.
-  replace (1 * ((cl * x + sl * y) ^ 2 + z ^ 2) + (- sl * x + cl * y) ^ 2) with ((sl * sl + cl * cl) * (x ^ 2 + y ^ 2) + z ^ 2) by ring.
-  rewrite Hl. ring.
+  split; [left; lra|]. unfold hor. replace (3 ^ 2 + 4 ^ 2) with (5 * 5) by ring. apply sqrt_square. lra.
 Qed.
 
 (* redundancy as reported: equations - parameters + defect (an identity of the statistics block, stated for the record) *)
 Theorem C19_redundancy_formula (equations parameters defect : nat) :
   (parameters <= equations + defect)%nat -> (equations + defect - parameters + parameters = equations + defect)%nat.
 Proof. intro H. apply Nat.sub_add. exact H. Qed.
+Print Assumptions C19_redundancy_formula.
